@@ -8,11 +8,11 @@ for m in sorted(glob.glob('/verif/seeded/*/meta.json')):
     keys = sorted({k for rs in (d.get('checks') or {}).values() for r in rs if r['rc'] == 1 for k in r['keys']})
     conf = d.get('confirmed', {})
     ok = all(conf.get(k) for k in ('applies', 'builds', 'repo_tests_pass', 'demo_patched_fails')) and conf.get('demo_clean_pass') is not False
-    rows.append((sid, d.get('property'), d.get('summary', ''), 'yes' if ok else 'NO', ', '.join(d.get('detected_by') or []) or '**missed**', '; '.join(keys[:3])))
+    rows.append((sid, d.get('property'), d.get('summary', ''), 'yes' if ok else 'NO', ', '.join(d.get('detected_by') or []) or '**missed**', '; '.join(keys[:3]), d.get('history', '')))
 with open('/verif/seeded/INDEX.md', 'w') as f:
     f.write('# Seeded changes\n\nEach directory holds `patch.diff` (apply with `git -C /repo apply`), the demonstration, the author\'s README and `meta.json`.\n'
-            'All were written by fresh sub-agents that saw only the property text; each was confirmed here (applies, builds, repository tests pass,\n'
-            'demo fails with / passes without) before being kept.\n\n| seed | property | what it breaks / needs | confirmed | detected by | violation keys |\n|---|---|---|---|---|---|\n')
+            'Seeds named <ID> are round 1, <ID>b round 2 (authors told only that a first round existed and to aim at a less prominent clause).\nAll were written by fresh sub-agents that saw only the property text; each was confirmed here (applies, builds, repository tests pass,\n'
+            'demo fails with / passes without) before being kept.\n\n| seed | property | what it breaks / needs | confirmed | detected by | violation keys | history (what the first run missed and what changed) |\n|---|---|---|---|---|---|---|\n')
     for r in rows:
         f.write('| ' + ' | '.join(str(x) for x in r) + ' |\n')
 print(len(rows), 'seeds indexed')
